@@ -131,6 +131,12 @@ impl<'de> Deserialize<'de> for HrSeen {
     }
 }
 
+impl AvroSchema for HrSeen {
+    fn get_schema() -> Schema {
+        Schema::String
+    }
+}
+
 /// Accepts whatever is offered and keeps nothing.
 struct Sink;
 
@@ -506,6 +512,30 @@ fn use_hr(path: &HrPath) -> Obs {
             let w = SpecificSingleObjectWriter::<HrProbe>::new()?;
             let mut out = vec![];
             w.write_ref(&HrProbe, &mut out)?;
+            from_text(&out)
+        })()),
+        HrPath::SpecificDatumReaderDeser => seen((|| {
+            let rd = apache_avro::reader::datum::SpecificDatumReader::<HrSeen>::builder().build()?;
+            Ok(rd.read(&mut &string_datum()[..])?.0)
+        })()),
+        HrPath::SpecificSingleReaderDeser => seen((|| {
+            let rd = apache_avro::SpecificSingleObjectReader::<HrSeen>::new()?;
+            let mut msg = vec![0xC3, 0x01];
+            msg.extend_from_slice(&Schema::String.fingerprint::<apache_avro::rabin::Rabin>().bytes);
+            msg.extend_from_slice(&string_datum());
+            Ok(rd.read(&mut &msg[..])?.0)
+        })()),
+        HrPath::SingleWriterBuilderSer => seen((|| {
+            let w = SpecificSingleObjectWriter::<HrProbe>::builder().build();
+            let mut out = vec![];
+            w.write_ref(&HrProbe, &mut out)?;
+            from_text(&out)
+        })()),
+        HrPath::WriteAvroDatumRef => seen((|| {
+            let schema = Schema::String;
+            let rs = apache_avro::schema::ResolvedSchema::try_from(&schema)?;
+            let mut out = vec![];
+            apache_avro::write_avro_datum_ref(&schema, rs.get_names(), &HrProbe, &mut out)?;
             from_text(&out)
         })()),
         HrPath::SingleReaderDeser => seen((|| {
